@@ -124,4 +124,49 @@ def hostSpec : List (Bytes × Bytes) → Except Err Bytes
       (if trimSpace v = [] then .error .notFound else .ok (trimSpace v))
     else hostSpec hs
 
+/-! ## QUIC frames as clients emit them (RFC 9000 §16, §19.1, §19.2, §19.6) -/
+
+/-- `n` big-endian bytes of `v` (low `8n` bits). -/
+def beBytes : Nat → Nat → Bytes
+  | 0, _ => []
+  | n + 1, v => (v / 256 ^ n % 256) :: beBytes n v
+
+/-- Variable-length integer in `2^k` bytes (`k ≤ 3`); needs `v < 2^(8·2^k − 2)`. -/
+def encVarint (v k : Nat) : Bytes :=
+  (k * 64 + v / 256 ^ (2 ^ k - 1)) :: beBytes (2 ^ k - 1) v
+
+def VarintFits (v k : Nat) : Prop := k ≤ 3 ∧ v < 64 * 256 ^ (2 ^ k - 1)
+
+inductive Frame
+  | crypto (off : Nat) (data : Bytes) (ko kl : Nat)   -- offset, data, varint size exponents
+  | ping
+deriving Repr, Inhabited
+
+/-- A frame preceded by `pad` PADDING frames (zero bytes). -/
+structure Item where
+  pad : Nat
+  frame : Frame
+deriving Repr, Inhabited
+
+def encodeFrame : Frame → Bytes
+  | .crypto off data ko kl => 6 :: (encVarint off ko ++ (encVarint data.length kl ++ data))
+  | .ping => [1]
+
+def encodeItems : List Item → Nat → Bytes
+  | [], trailingPad => List.replicate trailingPad 0
+  | it :: rest, tp => List.replicate it.pad 0 ++ (encodeFrame it.frame ++ encodeItems rest tp)
+
+def Frame.block? : Frame → Option Block
+  | .crypto off data _ _ => some ⟨off, data⟩
+  | .ping => none
+
+/-- The CRYPTO frames of a packet payload, in wire order. -/
+def cryptoBlocks : List Item → List Block
+  | [] => []
+  | it :: rest => it.frame.block?.toList ++ cryptoBlocks rest
+
+def Frame.Fits : Frame → Prop
+  | .crypto off data ko kl => VarintFits off ko ∧ VarintFits data.length kl
+  | .ping => True
+
 end DaeVerif.C06
